@@ -51,7 +51,8 @@ class Float3(FloatPrecision):
 
     @property
     def exponent3(self) -> int:
-        return int(3*np.floor((self.precision + self.exponent - 1)/3))
+        digits = min(len(str(abs(self.mantissa))), self.precision)
+        return int(3*np.floor((digits + self.exponent - 1)/3))
 
 @dataclass
 class ScientificFloat:
